@@ -340,6 +340,14 @@ impl<'p> ThunkData<'p> {
         *state = ThunkState::Done(value);
     }
 
+    /// Makes a thunk whose evaluation was interrupted evaluable again.
+    #[inline]
+    pub(super) fn reset_pending(&self, pending: PendingThunk<'p>) {
+        let mut state = self.state.borrow_mut();
+        assert!(matches!(*state, ThunkState::InProgress));
+        *state = ThunkState::Pending(pending);
+    }
+
     #[inline]
     pub(super) fn get_value(&self) -> Option<ValueData<'p>> {
         match *self.state.borrow() {
@@ -368,6 +376,7 @@ impl GcTrace for ThunkState<'_> {
     }
 }
 
+#[derive(Clone)]
 pub(super) enum PendingThunk<'p> {
     Expr {
         expr: &'p ir::Expr<'p>,
